@@ -32,6 +32,14 @@ func (c *ColBool) DecodeColumn(r *Reader, rows int) error {
 	if err := r.ReadFull(dst); err != nil {
 		return errors.Wrap(err, "read full")
 	}
+	// Bytes were read directly into []bool, so they must be checked to be
+	// valid booleans, as the pure Go implementation does.
+	for i, v := range dst {
+		if v != boolTrue && v != boolFalse {
+			*c = (*c)[:len(*c)-rows]
+			return errors.Errorf("[%d]: bad value %d for Bool", i, v)
+		}
+	}
 	return nil
 }
 
